@@ -212,19 +212,22 @@ CLAIMED = {
 
 # Sentences added after the second and third rounds of seeded changes (appended to the texts above).
 ADD = {
- "C01": " Added: the cursor of the string state of the lexer stays inside the input also after the error budget emptied it (adderror proved, ErrorfAt/emitText assumed because they send on the token channel), Entry.Modules / InstantiatingModule / Find no longer assume a tree rooted in a module (a grouping tree handed out by StoreUses is read back too); the corpus has 94 inputs, each with and without StoreUses, read back through Find, FindNode, Modules, Augmented.",
+ "C14": " Added: explicit values and positions are read as decimal integers (ParseInt repaired).",
+ "C15": " Added: the assumed contracts of strconv.ParseUint / ParseInt carry the base, so ParseInt's clause pins the decimal reading (the defect this exposed is repaired); asRangeInt under contract.",
+ "C10": " Added: ParseInt reads decimal integers only; the assumed contracts of strconv carry the base; fixed texts in the stand-in (010..020 = 10..20; 0x10, 1_000, '.', '1.', '.5' refused).",
+ "C01": " Added: the cursor of the string state of the lexer stays inside the input also after the error budget emptied it (adderror proved, ErrorfAt/emitText assumed because they send on the token channel), Entry.Modules / InstantiatingModule / Find no longer assume a tree rooted in a module (a grouping tree handed out by StoreUses is read back too); the corpus has 94 inputs, each with and without StoreUses, read back through Find, FindNode, Modules, Augmented. A method call on an interface without contract also gets a nil-receiver obligation; asRangeInt hands out a value of the range asked for or nothing.",
  "C02": " Added: pattern mode is on for the argument of a pattern statement only (call-site assertions in parser.nextStatement); the stand-in writes tabs before the opening quote and inside comments, pattern blocks, '+/' tokens and comment-opener corner cases.",
  "C03": " Added: isPrefixedKeyword under contract; the stand-in also offers words that are no keyword at all (the names of the fields every node has, ':x', 'x:') under module, submodule, input and an unnamed container, and every single-fault text again on a set that has just refused other texts.",
  "C04": " Added: the case FixChoice implies is a plain case (no list attributes, type, rpc part, key or errors); every augment of a pass is merged, refused with an error, reported or kept (ghost call counters), never silently skipped; the stand-in walks every module by object (two revisions of one name are two trees), shorthand lists and leaf-lists under choices, augments whose body is a missing grouping, bare actions.",
- "C05": " Added: a fixed set with the same identity in two revisions of one module (an open finding: KNOWN-FINDING line, see C11).",
- "C06": " Added: fixed cases for the extension list of a uses entry (own array per use) and for a prefix that only an included submodule binds (must be an error).",
+ "C05": " Added: a fixed set with the same identity in two revisions of one module (an open finding: KNOWN-FINDING line, see C11). errorSort is under contract: every sorted error is kept or deeply equal to the one kept last, what is kept stays, a list of at most one error comes back as it is (sort.Sort and reflect.DeepEqual assumed).",
+ "C06": " Added: fixed cases for the extension list of a uses entry (own array per use) and for a prefix that only an included submodule binds (must be an error). Repaired on the way: a grouping defined inside grouping k may use k; a submodule uses the groupings of its module.",
  "C07": " Added: merge is called only when none of the augment's names is taken in the target (never half applied; taken / refuse under contract), not for anydata / anyxml targets; every augment of a pass is merged, refused, reported or kept (ghost call counters).",
- "C08": " Added: the loop may also write the rpc input/output of the target's parent (not-supported on an rpc's input or output); fixed cases for that and for two revisions of one deviating module (both applied, in every run).",
- "C09": " Added: identityref look-ups and the foreign-name look-up are pinned by call-site assertions (the right function, from the right module, for the type statement itself); one open finding (a submodule does not see the typedefs of its module) with its bounded case.",
- "C11": " Added: identityref types (direct and through typedefs) look their base up with findIdentityBase from the module they are written in (call-site assertions); the stand-in has identityref leaves in every module and random derivation rings with ordinary derivations around them, 6 runs each; one open finding (identities of two revisions of one module collide) with its bounded case.",
- "C12": " Added: ro is now the statement read literally (says-false OR in-output; the defect this exposed is repaired), inOutput under contract; Entry.Modules / InstantiatingModule answer for trees not built from a module; own stand-in: ReadOnly and namespace of every node of random schemas (actions below config false / true, config inside outputs, augments) against the model, plus 18 fixed paths.",
- "C13": " Added: process collects one module per key of the module map and links every collected module (ghost call counter on include); stand-ins: file selection for a module name with a dot, several revisions of one module side by side each compared with what it is alone, and two more open findings (two revisions including one submodule; typedefs / identities of a nested include) with their bounded cases.",
- "C16": " Added: a foreign type name is looked up and reported for the type statement itself (call-site assertion in Type.resolve); every position named in any error of the semantic-fault texts must be the start of a statement; four foreign-prefix faults.",
+ "C08": " Added: the loop may also write the rpc input/output of the target's parent (not-supported on an rpc's input or output); fixed cases for that and for two revisions of one deviating module (both applied, in every run). Now also proved: the values written by the loop (config, mandatory, defaults on replace / add / delete, element bounds, units, type) are those of the deviate statement, per iteration.",
+ "C09": " Added: identityref look-ups and the foreign-name look-up are pinned by call-site assertions (the right function, from the right module, for the type statement itself). From a submodule the binding step also reaches the module it belongs to and that module's submodules (repaired defect; the former open finding is closed).",
+ "C11": " Added: identityref types (direct and through typedefs) look their base up with findIdentityBase from the module they are written in (call-site assertions); the stand-in has identityref leaves in every module and random derivation rings with ordinary derivations around them, 6 runs each; one open finding (identities of two revisions of one module collide) with its bounded case. A derivation cycle is reported: an identity among its own derivations has an error appended before the list is stored (call-site assertion and loop invariant in resolveIdentities).",
+ "C12": " Added: ro is now the statement read literally (says-false OR in-output; the defect this exposed is repaired), inOutput under contract; Entry.Modules / InstantiatingModule answer for trees not built from a module; own stand-in: ReadOnly and namespace of every node of random schemas (actions below config false / true, config inside outputs, augments) against the model, plus 18 fixed paths. A namespace denotes one module NAME (several revisions of a module share it): FindModuleByNamespace answers with the latest (repaired defect).",
+ "C13": " Added: process collects one module per key of the module map and links every collected module (ghost call counter on include); stand-ins: file selection for a module name with a dot, several revisions of one module side by side each compared with what it is alone, and two more open findings (two revisions including one submodule; typedefs / identities of a nested include) with their bounded cases. findInDir is under contract: the result is empty, the exact name, or a file of this directory whose name is the module name followed by what the date-suffix expression matches, and nothing that existed is written (assumed contracts on ioutil, fs, strings, regexp, filepath, sort).",
+ "C16": " Added: a foreign type name is looked up and reported for the type statement itself (call-site assertion in Type.resolve); every position named in any error of the semantic-fault texts must be the start of a statement; four foreign-prefix faults. updateCursor is under contract (range over a string is modelled now): every skipped character moves the tab-expanded column as next does, lines and columns are counted in characters.",
  "C17": " Added (proved): an import prefix denotes the module the set holds under the imported name at the time of the call (no stale binding from an earlier run).",
  "C18": " Added: every run also binds imports and includes afresh (call-site assertion: includes empty before process), a module that is filed empties what the namespace lookup remembers (Modules.add), ClearEntryCache also resets the merge marks; histories over layered import sets (so that intermediate runs succeed), longer identity chains, refused texts holding two revisions of one module; four fixed histories (namespace lookup after a later load, imports bound by an earlier run, search path after a refused file, ClearEntryCache after Process) -- all four were defects and are repaired.",
  "C19": " Added: iw.Write changes line-state flags only (frame obligation; assumed contract on io.Writer), so a package-level buffer added to it fails; the race stand-in also prints concurrently.",
